@@ -130,8 +130,8 @@ func c08Guard(f func() string) string {
 	}
 }
 
-// ---- generator (slash-terminated prefixes and clean `after` values only: what filepath.Join does to other
-// values is C13's subject) ----
+// ---- generator (prefixes with and without trailing slash; `after` values incl. empty and dot segments: both
+// listing paths seek to the plain concatenation prefix+after) ----
 
 var c08KeyPool = [][]string{
 	{"a", "b", "c"},
@@ -188,6 +188,28 @@ func c08NewGen(rng *vh.Rand, keys []string) *c08Gen {
 		if len(k) > 1 && k[len(k)-2] != '/' {
 			rset[k[:len(k)-1]] = true
 		}
+	}
+	// `after` values for prefixes without a trailing slash (the entries such a listing returns, i.e. what a
+	// caller paginating it would pass next) and values with empty / dot segments: since the seek is the plain
+	// concatenation prefix+after these are ordinary inputs (filepath.Join used to rewrite them)
+	for p := range rset {
+		for _, k := range g.keys {
+			if strings.HasPrefix(k, p) {
+				rest := k[len(p):]
+				if i := strings.Index(rest, "/"); i >= 0 {
+					aset[rest[:i+1]] = true
+				} else {
+					aset[rest] = true
+				}
+			}
+		}
+	}
+	for _, a := range []string{".", "..", "./", "//", "a//", "a/../b", "../", "a/./b", "/"} {
+		aset[a] = true
+	}
+	g.afters = g.afters[:0]
+	for a := range aset {
+		g.afters = append(g.afters, a)
 	}
 	for p := range rset {
 		g.rawPfx = append(g.rawPfx, p)
@@ -265,7 +287,11 @@ func (s *c08Sched) dataOp(id int, writeBias int) {
 			s.list(id, rng.Pick(s.g.prefixes))
 		}
 	default:
-		s.listp(id, rng.Pick(s.g.prefixes), rng.Pick(s.g.afters), c08Limits[rng.Intn(len(c08Limits))])
+		p := rng.Pick(s.g.prefixes)
+		if len(s.g.rawPfx) > 0 && rng.Chance(20) {
+			p = rng.Pick(s.g.rawPfx) // paginated listing of a prefix without a trailing slash
+		}
+		s.listp(id, p, rng.Pick(s.g.afters), c08Limits[rng.Intn(len(c08Limits))])
 	}
 }
 
